@@ -1,4 +1,4 @@
-\* generation: every transition over the trees T4i (invalid block at each position of the longer branch), one observer, in order and children first, no restart (all properties checked on the way)
+\* generation: every transition over the trees T4i (invalid block at each position of the longer branch), one observer, in order and children first, one restart (all properties checked on the way)
 SPECIFICATION Spec
 CONSTANTS
   N = 4
@@ -6,7 +6,7 @@ CONSTANTS
   Nodes <- Obs1
   Blk0s <- T4iExec
   MaxBlocks = 12
-  MaxRestarts = 0
+  MaxRestarts = 1
   ByzMode = "branch"
   ByzRanges <- R123
   Runs = TRUE
